@@ -1080,4 +1080,23 @@ pub(crate) const MAX_PUBKEY_SIZE: usize = 97;""")]),
                     // * Invariant: PrivateKey is in [1,p). This is preserved here.""", """
                     // * Invariant: PrivateKey is in [1,p). This is preserved here."""),
                 (NIST, "let sk = curve_crate::SecretKey::from_bytes(encoded.into())", "let sk = curve_crate::SecretKey::from_bytes(From::from(encoded))")]),
+    dict(name='c02-labeled-extract-loop-swapped-pieces', expect=[('C02', 'R02.4')],
+         note='loop form of LabeledExtract with suite_id and label swapped: every labeled extract differs from RFC 9180',
+         edits=[(KDF, """    extract_ctx.input_ikm(VERSION_LABEL);
+    extract_ctx.input_ikm(suite_id);
+    extract_ctx.input_ikm(label);
+    extract_ctx.input_ikm(ikm);""", """    for piece in [VERSION_LABEL, label, suite_id, ikm] {
+        extract_ctx.input_ikm(piece);
+    }""")]),
+    dict(name='c02-labeled-extract-loop-skips-empty', expect=[('C02', 'R02.4')],
+         note='loop form that stops at the first empty piece: the ikm is dropped whenever the label is empty',
+         edits=[(KDF, """    extract_ctx.input_ikm(VERSION_LABEL);
+    extract_ctx.input_ikm(suite_id);
+    extract_ctx.input_ikm(label);
+    extract_ctx.input_ikm(ikm);""", """    for piece in [VERSION_LABEL, suite_id, label, ikm] {
+        if piece.is_empty() {
+            break;
+        }
+        extract_ctx.input_ikm(piece);
+    }""")]),
 ]
